@@ -65,6 +65,9 @@ def unforge_int(data: bytes) -> (int, int):  # type: ignore
     while data[length - 1] & 0b10000000 != 0:
         length += 1
 
+    if length > 1 and data[length - 1] == 0:
+        raise ValueError('non-minimal integer encoding (trailing zero group)')
+
     for i in range(length - 1, 0, -1):
         value <<= 7
         value |= data[i] & 0b01111111
